@@ -69,12 +69,31 @@ func verifC12Name() enc.Name {
 
 // Data signed with a stub of each asymmetric signer shape: covered bytes agree on all three sides.
 func VerifC12_DataCoveredAgreement() {
+	verifC12DataCovered(false)
+}
+
+// one signer shape, a two-component name, and the segment boundary on the first byte of every top-level element and of
+// every name component (a reader that mislocates a range starting exactly on a segment start shows here)
+func VerifC12_DataSegmentBoundaries() {
+	verifC12DataCovered(true)
+}
+
+func verifC12DataCovered(boundaries bool) {
 	name := verifC12Name()
 	shapes := []struct {
 		typ ndn.SigType
 		est uint
 	}{{ndn.SignatureSha256WithEcdsa, 72}, {ndn.SignatureSha256WithRsa, 256}, {ndn.SignatureEd25519, 64}, {ndn.SignatureHmacWithSha256, 32}}
-	sh := shapes[verifChoice("shape", len(shapes))]
+	var sh struct {
+		typ ndn.SigType
+		est uint
+	}
+	if boundaries {
+		verifAssume(len(name) == 2 && len(name[0].Val) == 1 && len(name[1].Val) == 2)
+		sh = shapes[2]
+	} else {
+		sh = shapes[verifChoice("shape", len(shapes))]
+	}
 	var keyName enc.Name
 	if verifBool("keyLocator") {
 		keyName, _ = enc.NameFromStr("/key")
@@ -84,10 +103,17 @@ func VerifC12_DataCoveredAgreement() {
 	if sh.est > 253 {
 		lens = append(lens, 252, 253)
 	}
+	if boundaries {
+		lens = lens[len(lens)-1:]
+	}
 	sig := verifBytesUF("sig", lens[verifChoice("siglen", len(lens))])
 	var handed []byte
 	signer := verifStubSigner{typ: sh.typ, keyName: keyName, est: sh.est, sig: sig, covered: &handed}
-	content := enc.Wire{verifBytesN("content", verifChoice("clen", 3))}
+	nclen := 3
+	if boundaries {
+		nclen = 2
+	}
+	content := enc.Wire{verifBytesN("content", verifChoice("clen", nclen))}
 	fresh := time.Duration(verifRange("fresh", 0, 1<<30)) * time.Millisecond
 	var ed *ndn.EncodedData
 	var err error
@@ -115,11 +141,44 @@ func VerifC12_DataCoveredAgreement() {
 	check(enc.NewBufferReader(wire), "C12/data/contiguous")
 	// segment boundary from a list of positions: ends, inside the header, around the signature element
 	cuts := []int{0, 1, 3, len(wire) / 2, len(wire) - len(sig) - 2, len(wire) - len(sig), len(wire) - 1, len(wire)}
+	if boundaries {
+		cuts = verifC12Boundaries(wire)
+	}
 	cut := cuts[verifChoice("cut", len(cuts))]
 	if cut < 0 {
 		cut = 0
 	}
 	check(enc.NewWireReader(enc.Wire{wire[:cut], wire[cut:]}), "C12/data/segmented")
+}
+
+// offsets of the first byte of every top-level element of a packet and of every component of its Name
+// (type and length octets of a packet built by the encoder are concrete; values may be symbolic)
+func verifC12Boundaries(wire []byte) []int {
+	var out []int
+	hdr := func(p int) (typ, l, n int) { // 1-byte types; 1- or 3-byte lengths
+		typ = int(wire[p])
+		if wire[p+1] == 0xfd {
+			return typ, int(wire[p+2])<<8 | int(wire[p+3]), 4
+		}
+		return typ, int(wire[p+1]), 2
+	}
+	if len(wire) < 2 {
+		return out
+	}
+	_, _, n0 := hdr(0)
+	for p := n0; p+1 < len(wire); {
+		out = append(out, p)
+		typ, l, n := hdr(p)
+		if typ == 0x07 {
+			for q := p + n; q+1 < p+n+l; {
+				out = append(out, q)
+				_, cl, cn := hdr(q)
+				q += cn + cl
+			}
+		}
+		p += n + l
+	}
+	return out
 }
 
 // SHA-256 and HMAC signed Data: validator accepts the original and rejects every single-bit flip
@@ -291,4 +350,19 @@ func VerifC12_InterestCoveredAgreement() {
 	verifAssert(i.Signature().SigType() == sh.typ, "C12/sinterest/decoded-signature-type")
 	verifAssertBytesEq(i.AppParam().Join(), app.Join(), "C12/sinterest/decoded-parameters")
 	verifObserve("wirelen", len(wire))
+	// the same Interest presented in two segments cut at an element boundary (or one byte before/after the first)
+	b := verifC12Boundaries(wire)
+	cuts := append([]int{1, 3, len(wire) - 1}, b...)
+	cut := cuts[verifChoice("cut", len(cuts))]
+	var i2 ndn.Interest
+	var cov2 enc.Wire
+	verifNoPanic("C12/sinterest/read-no-panic", func() {
+		i2, cov2, perr = spec.Spec{}.ReadInterest(enc.NewWireReader(enc.Wire{wire[:cut], wire[cut:]}))
+	})
+	verifAssert(perr == nil && i2 != nil, "C12/sinterest/segmented/decodes")
+	if perr != nil || i2 == nil {
+		return
+	}
+	verifAssertBytesEq(cov2.Join(), handed, "C12/sinterest/segmented/decoder-reconstructs-the-signed-portion")
+	verifAssertBytesEq(i2.Signature().SigValue(), sig, "C12/sinterest/segmented/decoded-signature-value-is-what-the-signer-returned")
 }
